@@ -42,7 +42,18 @@ var (
 	crashed  = make(chan struct{}, 1)
 	// MatchKind/MatchSuffix (optional): arm on the first mutating call of that kind whose path ends with the suffix
 	matchKind, matchSuffix string
+	// pause point (optional): before the first call of that kind whose path ends with the suffix takes effect, fn runs
+	// on the calling goroutine (the harness owns the schedule there: it can let other requests run and come back)
+	pauseKind, pauseSuffix string
+	pauseFn                func()
 )
+
+// PauseAt installs a one-shot pause point (kind as in Op.Kind; reads such as "stat" count too).
+func PauseAt(kind, suffix string, fn func()) {
+	mu.Lock()
+	pauseKind, pauseSuffix, pauseFn = kind, suffix, fn
+	mu.Unlock()
+}
 
 // Reset clears the log and every armed crash; dead roots stay dead (their goroutines may still be around).
 func Reset(watchRoot string, logging bool) {
@@ -134,6 +145,13 @@ func step(kind, path, to string, mut bool) int {
 			return doSkip
 		}
 		return doRun
+	}
+	if pauseFn != nil && kind == pauseKind && strings.HasSuffix(p, pauseSuffix) {
+		fn := pauseFn
+		pauseFn = nil
+		mu.Unlock()
+		fn()
+		mu.Lock()
 	}
 	op := Op{Kind: kind, Path: p, To: to, Mut: mut}
 	hit := false
